@@ -31,12 +31,19 @@ impl Prop for C02 {
 
     fn profiles(tier: Tier) -> Vec<Profile> {
         match tier {
-            Tier::Quick => vec![prof("pad", 120_000), prof("pad_light", 30_000), prof("zero_budget", 60_000)],
-            Tier::Thorough => vec![prof("pad", 1_500_000), prof("pad_light", 300_000), prof("zero_budget", 700_000)],
+            Tier::Quick => vec![prof("pad", 120_000), prof("pad_light", 30_000), prof("zero_budget", 60_000), prof("capi", 8_000)],
+            Tier::Thorough => vec![prof("pad", 1_500_000), prof("pad_light", 300_000), prof("zero_budget", 700_000), prof("capi", 100_000)],
         }
     }
 
     fn strategy(profile: &str) -> BoxedStrategy<FwCase> {
+        if profile == "capi" {
+            // padding budgets for C callers: the same single-event histories through the C API
+            let hp = HistParams { min_calls: 5, max_calls: 80, single: true, ev_weights: [1, 1, 1, 6, 8, 1, 1, 1, 1, 1], w_unknown_id: 3, ..HistParams::default() };
+            return crate::props::capi_case(1..=4, |mp| { mp.p_action = 0.9; mp.kind_weights = [1, 10, 1, 1]; mp.budgets = crate::gen::BudgetProfile::Any; }, &hp)
+                .prop_map(|mut c| { if c.max_padding_frac.0 == 0.0 { c.max_padding_frac = Fx(0.5); } c })
+                .boxed();
+        }
         let mut mp = MachineParams {
             max_states: 4,
             p_action: 0.9,
@@ -86,6 +93,9 @@ impl Prop for C02 {
         let machines = build_machines(&case.machines)
             .unwrap_or_else(|e| panic!("generator produced a machine that Machine::new rejects: {e}"));
         let n = machines.len();
+        if case.seed == crate::props::CAPI_MARK {
+            crate::props::capi_pass(case, obs)?;
+        }
         let mut run = FwRun::new(case, machines, Some(50_000_000))
             .map_err(|e| Failure { signature: "framework-new-rejects-validated-machines".into(), detail: e })?;
         let gfrac = case.max_padding_frac.0;
